@@ -172,109 +172,3 @@ Theorem C03_esc_table_keys_ascii :
   forallb (fun k => negb (starts_esc k) || all_ascii k) table_keys = true.
 Proof. exact esc_table_keys_ascii. Qed.
 Print Assumptions C03_esc_table_keys_ascii.
-
-(* tie of the model's could_be_unfinished_utf8 (the five lead-byte masks and length tests) to
-   the function text in the repository: Gen/Pure.v holds the syntax tree of
-   curtsies.events.could_be_unfinished_utf8 dumped from the Python AST of the working tree on
-   every run, [PyMini.call] is the reference semantics of that Python subset
-   (Spec/PyMini.v); for ALL byte strings they agree (TypeError on the empty one included) *)
-From Curtsies Require Spec.PyMini Gen.Pure Proofs.PureTie.
-Theorem C03_could_be_unfinished_utf8_is_the_repository_function :
-  forall seq : list N,
-    PyMini.call Pure.py_could_be_unfinished_utf8 [PyMini.VBytes seq]
-    = PureTie.embed_bool (could_be_unfinished_utf8 seq).
-Proof. exact PureTie.could_be_unfinished_utf8_tie. Qed.
-Print Assumptions C03_could_be_unfinished_utf8_is_the_repository_function.
-
-(* ---- tie of the model's decision cascade to the function text in the repository -------------
-   Gen/Pure.v holds the syntax trees of curtsies.events.get_key, _key_name, decodable,
-   could_be_unfinished_char and could_be_unfinished_utf8, dumped from the Python AST of the
-   working tree on every run (gen/gen_pure.py, one AST node = one constructor);
-   [PyMini.call_in] is the reference semantics of that Python subset (Spec/PyMini.v), run in
-   the context of the events module (Spec/PyEnv.v): the module's tables are the generated ones
-   (Gen/Tables.v); every call between these functions is interpreted by running the callee's
-   own generated tree ([PyEnv.ctx0] < [ctx1] < [ctx2], nothing assumed about them); the only
-   assumed behaviour is that of the standard library, the two ORACLES
-     bytes.decode(name)         = Model/Utf8.decode of the codec [PyEnv.codec_of_name name]
-     codecs.getdecoder(a) is codecs.getdecoder(b)  iff  a and b name the same codec.
-   For ALL lists of bytes objects, every encoding name of the alias table, all naming modes,
-   both values of [full]: running the repository's text of get_key -- the isinstance test and
-   the join of the prologue included -- gives exactly what the model [get_key] answers on the
-   concatenated bytes: the same key (a str, or the bytes under BYTES naming), None for "more
-   input", or the same exception.  An edit of any of the five functions that changes their
-   meaning breaks one of these obligations. *)
-From Curtsies Require Spec.PyEnv Proofs.PureTieKeys.
-Theorem C03_get_key_is_the_repository_function :
-  forall (name : list N) (enc : encoding) (mode : keynames) (full : bool) (chunks : list (list N)),
-    PyEnv.codec_of_name name = Some enc -> is_bytes (concat chunks) = true ->
-    PyMini.call_in PyEnv.ctx2 Pure.py_get_key
-      [PureTieKeys.bytes_list chunks; PyMini.VStr name; PureTieKeys.embed_mode mode; PyMini.VBool full]
-    = PureTieKeys.embed_outcome mode (get_key enc mode full (concat chunks)).
-Proof. exact PureTieKeys.get_key_tie. Qed.
-Print Assumptions C03_get_key_is_the_repository_function.
-
-(* ... in the form the decoder loop calls it: a list of one-byte bytes objects *)
-Theorem C03_get_key_is_the_repository_function_bytes :
-  forall (name : list N) (enc : encoding) (mode : keynames) (full : bool) (seq : list N),
-    PyEnv.codec_of_name name = Some enc -> is_bytes seq = true ->
-    PyMini.call_in PyEnv.ctx2 Pure.py_get_key
-      [PyMini.VList (map (fun b => PyMini.VBytes [b]) seq); PyMini.VStr name; PureTieKeys.embed_mode mode; PyMini.VBool full]
-    = PureTieKeys.embed_outcome mode (get_key enc mode full seq).
-Proof. exact PureTieKeys.get_key_tie_list. Qed.
-Print Assumptions C03_get_key_is_the_repository_function_bytes.
-
-(* ... the default values of the parameters are keynames=Keynames.CURTSIES, full=False *)
-Theorem C03_get_key_defaults_are_the_repository_ones :
-  forall a b : PyMini.val,
-    PyMini.call_in PyEnv.ctx2 Pure.py_get_key [a; b]
-    = PyMini.call_in PyEnv.ctx2 Pure.py_get_key [a; b; PureTieKeys.embed_mode CURTSIES; PyMini.VBool false].
-Proof. exact PureTieKeys.get_key_defaults. Qed.
-Print Assumptions C03_get_key_defaults_are_the_repository_ones.
-
-(* ... and a list with an element that is not a bytes object is refused with TypeError *)
-Theorem C03_get_key_refuses_non_bytes :
-  forall (l : list PyMini.val) (a2 a3 a4 : PyMini.val),
-    forallb PureTieKeys.is_vbytes l = false ->
-    PyMini.call_in PyEnv.ctx2 Pure.py_get_key [PyMini.VList l; a2; a3; a4] = Raise TypeError.
-Proof. exact PureTieKeys.get_key_type_error. Qed.
-Print Assumptions C03_get_key_refuses_non_bytes.
-
-Theorem C03_could_be_unfinished_char_is_the_repository_function :
-  forall (name : list N) (enc : encoding) (seq : list N),
-    PyEnv.codec_of_name name = Some enc ->
-    PyMini.call_in PyEnv.ctx1 Pure.py_could_be_unfinished_char [PyMini.VBytes seq; PyMini.VStr name]
-    = PureTie.embed_bool (could_be_unfinished_char enc seq).
-Proof. exact PureTieKeys.could_be_unfinished_char_tie. Qed.
-Print Assumptions C03_could_be_unfinished_char_is_the_repository_function.
-
-Theorem C03_decodable_is_the_repository_function :
-  forall (name : list N) (enc : encoding) (seq : list N),
-    PyEnv.codec_of_name name = Some enc ->
-    PyMini.call_in PyEnv.ctx0 Pure.py_decodable [PyMini.VBytes seq; PyMini.VStr name]
-    = Ok (PyMini.VBool (decodable enc seq)).
-Proof. exact PureTieKeys.decodable_tie. Qed.
-Print Assumptions C03_decodable_is_the_repository_function.
-
-Theorem C03_key_name_is_the_repository_function :
-  forall (name : list N) (enc : encoding) (mode : keynames) (seq : list N),
-    PyEnv.codec_of_name name = Some enc -> is_bytes seq = true ->
-    PyMini.call_in PyEnv.ctx0 Pure.py_key_name [PyMini.VBytes seq; PyMini.VStr name; PureTieKeys.embed_mode mode]
-    = PureTieKeys.embed_name mode (key_name enc mode seq).
-Proof. exact PureTieKeys.key_name_tie. Qed.
-Print Assumptions C03_key_name_is_the_repository_function.
-
-(* could_be_unfinished_utf8 again, as the callee the two functions above reach (run in the module's context) *)
-Theorem C03_could_be_unfinished_utf8_in_module_context :
-  forall seq : list N,
-    PyMini.call_in PyEnv.ctx0 Pure.py_could_be_unfinished_utf8 [PyMini.VBytes seq]
-    = PureTie.embed_bool (could_be_unfinished_utf8 seq).
-Proof. exact PureTieKeys.could_be_unfinished_utf8_tie0. Qed.
-Print Assumptions C03_could_be_unfinished_utf8_in_module_context.
-
-(* the alias table is not empty: the three encodings of the property, "utf-8" "ascii" "latin-1" *)
-Theorem C03_encoding_names :
-  PyEnv.codec_of_name PureTieKeys.name_utf8 = Some Utf8 /\ PureTieKeys.name_utf8 = [117; 116; 102; 45; 56] /\
-  PyEnv.codec_of_name PureTieKeys.name_ascii = Some Ascii /\ PureTieKeys.name_ascii = [97; 115; 99; 105; 105] /\
-  PyEnv.codec_of_name PureTieKeys.name_latin1 = Some Latin1 /\ PureTieKeys.name_latin1 = [108; 97; 116; 105; 110; 45; 49].
-Proof. exact PureTieKeys.codec_names_spelled. Qed.
-Print Assumptions C03_encoding_names.
